@@ -125,4 +125,67 @@ example : readTargetJ (targetJ (.complex .dir [.ann "a\"1".toList (some (.b 0, .
     = .ok (.complex .dir [.ann "a\"1".toList (some (.b 0, .e 0)), .key "s".toList "k;x".toList]) :=
   target_json_roundtrip _ rfl
 
+/-! ### data values -/
+
+theorem t_ne (a b : String) (h : a.toList ≠ b.toList) : ¬ (a.toList = b.toList) := h
+
+mutual
+/-- **C05 (typed values).** Every data value — null, booleans, integers of any size, float and datetime literals,
+strings, lists nested to any depth — written as STAM JSON is read back as the same value of the same type. -/
+theorem value_json_roundtrip (isDt : S → Bool) (showF : Int → S) :
+    ∀ (v : DVJ) (fuel : Nat), v.depth ≤ fuel → (∀ l ∈ dtLits v, isDt l = true) → readValue isDt showF fuel (valueJ v) = .ok v
+  | .null, fuel, hf, _ => by
+    obtain ⟨f, rfl⟩ : ∃ f, fuel = f + 1 := ⟨fuel - 1, by simp [DVJ.depth] at hf; omega⟩
+    simp [valueJ, readValue, field, List.find?]
+  | .bool b, fuel, hf, _ => by
+    obtain ⟨f, rfl⟩ : ∃ f, fuel = f + 1 := ⟨fuel - 1, by simp [DVJ.depth] at hf; omega⟩
+    have h1 : ¬ ("Bool".toList = "Null".toList) := by decide
+    simp [valueJ, tagged, readValue, field, List.find?, k1, h1]
+  | .int z, fuel, hf, _ => by
+    obtain ⟨f, rfl⟩ : ∃ f, fuel = f + 1 := ⟨fuel - 1, by simp [DVJ.depth] at hf; omega⟩
+    have h1 : ¬ ("Int".toList = "Null".toList) := by decide
+    have h2 : ¬ ("Int".toList = "Bool".toList) := by decide
+    simp [valueJ, tagged, readValue, field, List.find?, k1, h1, h2]
+  | .flt l, fuel, hf, _ => by
+    obtain ⟨f, rfl⟩ : ∃ f, fuel = f + 1 := ⟨fuel - 1, by simp [DVJ.depth] at hf; omega⟩
+    have h1 : ¬ ("Float".toList = "Null".toList) := by decide
+    have h2 : ¬ ("Float".toList = "Bool".toList) := by decide
+    have h3 : ¬ ("Float".toList = "Int".toList) := by decide
+    simp [valueJ, tagged, readValue, field, List.find?, k1, h1, h2, h3]
+  | .str s, fuel, hf, _ => by
+    obtain ⟨f, rfl⟩ : ∃ f, fuel = f + 1 := ⟨fuel - 1, by simp [DVJ.depth] at hf; omega⟩
+    have h1 : ¬ ("String".toList = "Null".toList) := by decide
+    have h2 : ¬ ("String".toList = "Bool".toList) := by decide
+    have h3 : ¬ ("String".toList = "Int".toList) := by decide
+    have h4 : ¬ ("String".toList = "Float".toList) := by decide
+    simp [valueJ, tagged, readValue, field, List.find?, k1, h1, h2, h3, h4]
+  | .dt l, fuel, hf, hd => by
+    obtain ⟨f, rfl⟩ : ∃ f, fuel = f + 1 := ⟨fuel - 1, by simp [DVJ.depth] at hf; omega⟩
+    have h1 : ¬ ("Datetime".toList = "Null".toList) := by decide
+    have h2 : ¬ ("Datetime".toList = "Bool".toList) := by decide
+    have h3 : ¬ ("Datetime".toList = "Int".toList) := by decide
+    have h4 : ¬ ("Datetime".toList = "Float".toList) := by decide
+    have h5 : ¬ ("Datetime".toList = "String".toList) := by decide
+    have hl : isDt l = true := hd l (by simp [dtLits])
+    simp [valueJ, tagged, readValue, field, List.find?, k1, h1, h2, h3, h4, h5, hl]
+  | .list xs, fuel, hf, hd => by
+    obtain ⟨f, rfl⟩ : ∃ f, fuel = f + 1 := ⟨fuel - 1, by simp [DVJ.depth] at hf; omega⟩
+    have h1 : ¬ ("List".toList = "Null".toList) := by decide
+    have h2 : ¬ ("List".toList = "Bool".toList) := by decide
+    have h3 : ¬ ("List".toList = "Int".toList) := by decide
+    have h4 : ¬ ("List".toList = "Float".toList) := by decide
+    have h5 : ¬ ("List".toList = "String".toList) := by decide
+    have h6 : ¬ ("List".toList = "Datetime".toList) := by decide
+    have hxs := values_json_roundtrip isDt showF xs f (by simp [DVJ.depth] at hf; omega) (by intro l hl; exact hd l (by simpa [dtLits] using hl))
+    simp [valueJ, tagged, readValue, field, List.find?, k1, h1, h2, h3, h4, h5, h6, hxs, Out.bind]
+theorem values_json_roundtrip (isDt : S → Bool) (showF : Int → S) :
+    ∀ (xs : List DVJ) (fuel : Nat), depths xs ≤ fuel → (∀ l ∈ dtLitss xs, isDt l = true) →
+      readValues isDt showF fuel (valuesJ xs) = .ok xs
+  | [], fuel, _, _ => by simp [valuesJ, readValues]
+  | x :: xs, fuel, hf, hd => by
+    have hx := value_json_roundtrip isDt showF x fuel (by simp [depths] at hf; omega) (by intro l hl; exact hd l (by simp [dtLitss, hl]))
+    have hr := values_json_roundtrip isDt showF xs fuel (by simp [depths] at hf; omega) (by intro l hl; exact hd l (by simp [dtLitss, hl]))
+    simp [valuesJ, readValues, hx, hr, Out.bind]
+end
+
 end Stam.C05
